@@ -8,7 +8,11 @@
 //	           eq => eql => equal => equalp, reflexive, symmetric, transitive, equal => same sxhash
 //	tables     explicit-state BFS over histories of (setf gethash)/remhash/clrhash on tables of every :test,
 //	           with gethash of every key, hash-table-count and maphash after every step, against a finite map
-//	           keyed by the classes of slip's OWN predicate measured on the key objects
+//	           keyed by the classes of slip's OWN predicate measured on the key objects; three alphabets: every
+//	           hashable kind (depth-limited), a few keys to the fixpoint, and the representations of one number
+//	           (ratio / long-float / double / single / bignum-held / ratio-held) to the fixpoint
+//	pairs      every ORDERED pair of keys of an alphabet that holds every equivalence class of numbers in every
+//	           representation: store under one, look up / overwrite / remove under the other (pairs.go)
 //	types      every object x every class of the registry: typep of type-of, typep of every supertype,
 //	           subtypep reflexive / transitive (all triples) / agreeing with typep, coerce result of the requested type
 package c16
@@ -30,13 +34,18 @@ func init() {
 			"a triple case when p(x,y) and p(y,z) both hold for some predicate p; a type case when the antecedent of its law holds " +
 			"(subtypep true / typep true / coerce returned). BFS part: state = operation history replayed on a fresh table, " +
 			"key = the contents of the Go map behind the table (keys by identity); oracle of a step computed from the observed " +
-			"pre-state; a step is non-trivial when the table is non-empty afterwards or the operation addressed a stored key through an equivalent one",
+			"pre-state; a step is non-trivial when the table is non-empty afterwards or the operation addressed a stored key through an equivalent one. " +
+			"Pair family (static cases tp|test|bystanders|history): a fresh table per case, the history replayed with the step oracle of the BFS after EVERY operation " +
+			"(gethash of every key of the history and of the bystanders, hash-table-count, maphash); classes measured per step with slip's own predicate on the key objects of the case " +
+			"and on every key object the table is seen to hold (a table may keep another object than it was given)",
 		Assumptions: []string{
 			"the hash-table model is keyed by the equivalence classes of slip's OWN eql (make-hash-table documents that :test is ignored and eql always used) measured on the key objects; a table that honours the requested :test is accepted too",
 			"a predicate that signals or faults on a pair is reported under its own signature and takes no part in the laws for that pair",
 			"coerce: a Lisp-level error is an accepted outcome; a returned object is accepted when slip's typep or the Common Lisp definition (Go check) puts it in the requested type; nil is accepted as a member of every sequence type (slip's tests pin (coerce nil 'vector) => nil)",
 			"type symbols = the classes visible from the user package (find-class); t, list, null, cons, keyword are not classes in slip and take part only through type-of / coerce",
 			"Go map iteration order is not controlled; no verdict depends on it (contents are compared as sorted sets)",
+			"a NaN (reachable as infinity minus infinity) is eql to itself by slip's eq (same object); it is a key of the pair alphabet and a table that cannot find it again is reported under key=double-float-nan",
+			"type universe: classes that cannot be instantiated without the network (watch-*, http-server-flavor, http-response-writer-flavor) and the classes byte, short-float, input-stream, output-stream, which no object slip makes is typep of, have no inhabitant",
 		},
 		Enumerate: enumerate,
 		Exec:      exec,
@@ -46,14 +55,15 @@ func init() {
 			NoDedupDepth: func(tier string) int { return 2 },
 			StateCap:     func(string) int { return 0 },
 		},
-		Required: []string{
+		Required: append(append([]string{}, pairRequired...),
+			"rep-mode-table-set-via-equivalent-key", "rep-mode-table-rem-via-equivalent-key", "rep-mode-table-lookup-via-equivalent-key",
 			"reflexive-checked", "distinct-objects-related", "cross-representation-numbers-related", "chain-antecedent-true",
 			"sxhash-on-equal-distinct-objects", "transitive-antecedent-true", "transitive-mixed-representations",
 			"typep-of-own-type-of", "proper-supertype-of-type-of", "subtypep-reflexive-checked", "subtypep-transitive-proper-chain",
 			"subtypep-vs-typep-antecedent", "coerce-returned", "coerce-changed-representation",
 			"table-pointer-represented-key", "table-set-via-equivalent-key", "table-rem-via-equivalent-key",
 			"table-lookup-via-equivalent-key", "table-overwrite", "table-remove-present", "table-clear-nonempty",
-		},
+		),
 		Bound:         bound,
 		Selftest:      selftest,
 		CaseDeadlineS: 30,
@@ -78,9 +88,22 @@ func bound(tier string) string {
 	return fmt.Sprintf("relations: all %d unordered pairs (incl. x with itself) and all %d ordered triples (x,y,z) with y distinct from x and z over a universe of %d objects, 4 predicates + sxhash; "+
 		"types: %d objects x %d registry classes (typep/subtypep agreement), all %d ordered pairs of classes each against every third class (all %d triples) and every object, coerce of %d objects to %d result types; "+
 		"tables: BFS over histories of (setf gethash) x {a, nil} / remhash / clrhash on tables of 4 :test values, every step followed by gethash of every key + hash-table-count + maphash: "+
-		"full alphabet of %d keys to %d operations, sub-alphabet of %d keys to the fixpoint of the reachable contents (every history of any length, in particular <= 12, ends in an explored state)",
+		"full alphabet of %d keys to %d operations, sub-alphabet of %d keys and representation alphabet of %d keys (%s) to the fixpoint of the reachable contents (every history of any length, in particular <= 12, ends in an explored state); "+
+		"table pair family: %d keys in %d groups [%s], 4 :test values: every single store, every ORDERED pair (k1,k2) of the %d x %d with store k1 then (setf gethash) k2 / remhash k2, each on an empty table and on a table holding %d bystander entries; "+
+		"3-operation histories (a further store / removal under k1 or k2) %s; %d cases, every step followed by gethash of every key involved + hash-table-count + maphash",
 		n*(n+1)/2, n*(n-1)*(n-1), n, len(universe), nt, nt*nt, nt*nt*nt, len(universe), len(coerceMenu),
-		len(fullKeys(tier)), fullDepth(tier), len(subKeys(tier)))
+		len(fullKeys(tier)), fullDepth(tier), len(subKeys(tier)), len(repKeys(tier)), keySrcs(repKeys(tier)),
+		len(pairKeys), len(pairGroups), pairAlphabetText(), len(pairKeys), len(pairKeys), len(pairBystanders),
+		map[bool]string{false: "for the pairs inside a group and across neighbouring groups", true: "for every ordered pair with and without bystanders, plus two stores and a third operation for every ordered triple of distinct keys inside a group"}[tier == engine.Thorough],
+		pairCaseCount(tier))
+}
+
+func keySrcs(keys []string) string {
+	var s []string
+	for _, k := range keys {
+		s = append(s, elemByName[k].src)
+	}
+	return strings.Join(s, ", ")
 }
 
 func enumerate(tier string, emit func(string)) {
@@ -91,6 +114,8 @@ func enumerate(tier string, emit func(string)) {
 			emit("p|" + x.name + "|" + y.name)
 		}
 	}
+	// tables: the pair family
+	enumeratePairs(tier, emit)
 	// types
 	types := registryTypes()
 	for _, x := range universe {
@@ -139,6 +164,8 @@ func exec(spec string) (res engine.Result) {
 		return execTriple(parts)
 	case "to", "ty", "st", "co":
 		return execType(parts)
+	case "tp":
+		return execPairCase(parts)
 	}
 	res.Fail("harness:bad-spec", spec)
 	return
